@@ -49,7 +49,10 @@ class Person:
 
 
 def _cb_guid(tree, data):
-    return data.guid
+    # total, like GuidTree.calc_data_id: a lookup key may be any object (tree["absent"], `x in tree`)
+    if hasattr(data, "guid"):
+        return data.guid
+    return hash(data)
 
 
 class GuidTree(Tree):
